@@ -107,6 +107,17 @@ PROPS["C07"] = _hist(
     "Knock-out heavy histories (Gene.knock_out, knock_out_model_genes by object/id/index, Reaction.knock_out, functional flags, "
     "rule edits, contexts) judged against truth tables over the generator's own rule trees (never cobrapy's parser).",
     "Sampled histories; rules are random and/or trees of depth <= 3 over <= 6 shared genes.", "4 (C07)")
+PROPS["C10"] = _hist(
+    "C10", 1500, 40000,
+    "'Restart through SBML' is an operation inside edit histories: write (string, path, handle; with and without f_replace) under one "
+    "global Configuration, validate the document with the SBML validator, discard the live model, read under another Configuration, "
+    "compare with the projection of the reference (ids, stoichiometry, bounds, objective and direction, rule truth tables, compartments, "
+    "names, formulas, charges, annotations as (provider, identifier) sets, plain-text notes, groups), raw LP and cross-references, "
+    "require a second round trip to be a fixpoint, and continue the history on the loaded model.",
+    "In-family part only (durability across restart for history-reached states); shipped/third-party SBML files, FBC-v1 and "
+    "compressed files are pure-input clauses and not claimed. Every species must have a compartment (SBML requirement).", "4 (C10)",
+    probes=["restart_sbml", "restart_variant_string", "restart_variant_path", "restart_variant_handle", "restart_config_skew",
+            "restart_fixpoint_checked"])
 PROPS["C11"] = _hist(
     "C11", 2500, 60000,
     "'Restart through a durable format' is an operation inside edit histories: save as JSON/YAML/dict/pickle (string, path or "
